@@ -47,6 +47,9 @@ def menu_db() -> Dict[str, Any]:
         {"name": "utf8_2", "dct": std("A_UTF8STRING", 16)},
         {"name": "i8", "dct": std("A_INT32", 8)},
         {"name": "badenc", "dct": std("A_ASCIISTRING", 16, "2C")},  # an encoding that is illegal for strings
+        {"name": "asc2", "dct": std("A_ASCIISTRING", 16)},
+        {"name": "leadasc", "dct": {"k": "LEAD", "base": "A_ASCIISTRING", "bits": 8}},
+        {"name": "mmasc", "dct": {"k": "MINMAX", "base": "A_ASCIISTRING", "min": 0, "max": 4, "term": "ZERO"}},
     ]
     msgs = [
         {"kind": "REQUEST", "name": "rq_v8", "params": [P("CODED-CONST", "sid", dct=U8, value=0x22), P("VALUE", "v", dop="u8")]},
@@ -57,6 +60,9 @@ def menu_db() -> Dict[str, Any]:
         {"kind": "REQUEST", "name": "rq_badenc", "params": [P("VALUE", "s", dop="badenc")]},
         {"kind": "REQUEST", "name": "rq_sf", "params": [P("VALUE", "f", dop="SF2")]},
         {"kind": "REQUEST", "name": "rq_bz", "params": [P("VALUE", "b", dop="bmin2")]},
+        {"kind": "REQUEST", "name": "rq_asc2", "params": [P("VALUE", "s", dop="asc2")]},
+        {"kind": "REQUEST", "name": "rq_leadasc", "params": [P("VALUE", "s", dop="leadasc")]},
+        {"kind": "REQUEST", "name": "rq_mmasc", "params": [P("VALUE", "s", dop="mmasc")]},
     ]
     lib.append({"name": "bmin2", "dct": {"k": "MINMAX", "base": "A_BYTEFIELD", "min": 2, "max": 4, "term": "ZERO"}})
     layer = {"type": "BASE-VARIANT", "name": "L", "dops": lib, "msgs": msgs, "svcs": []}
@@ -188,6 +194,10 @@ MENU: List[Tuple[str, Callable[[], Any]]] = [
     ("encode-static-field-wrong-count", lambda: menu_objs()["rq_sf"].encode(f=[{"a": 1, "b": 2}, {"a": 1, "b": 2}, {"a": 3, "b": 4}])),
     ("encode-minmax-too-short", lambda: menu_objs()["rq_bz"].encode(b=b"\x41")),
     ("encode-string-with-illegal-encoding", lambda: menu_objs()["rq_badenc"].encode(s="AB")),
+    # a character the target encoding cannot represent, at each encoder site that handles strings
+    ("encode-unencodable-character-standard-length", lambda: menu_objs()["rq_asc2"].encode(s="\u20aca")),
+    ("encode-unencodable-character-leading-length", lambda: menu_objs()["rq_leadasc"].encode(s="\u20aca")),
+    ("encode-unencodable-character-min-max-length", lambda: menu_objs()["rq_mmasc"].encode(s="\u20aca")),
     ("load-dangling-reference", lambda: _load_summary(dangling_db())),
     ("load-unresolvable-snref", lambda: _load_summary(ambiguous_snref_db())),
     # control: a mode-insensitive valid operation
